@@ -182,6 +182,11 @@ let parse_instr toks : instr =
   | t :: _ -> raise (Bad ("instr " ^ t))
   | [] -> raise (Bad "empty instr")
 
+let exc_name = function
+  | RuntimeError -> "RuntimeError" | KeyError -> "KeyError" | TypeError -> "TypeError"
+  | EOFError -> "EOFError" | OSError -> "OSError" | PanicException -> "PanicException"
+(* what the Python classes raise for this instruction (Model/PyProg.v) *)
+let py_exc_of p i = match py_exec p i with PyRaise x -> " py.exc=" ^ exc_name x | _ -> ""
 let status_of = function
   | Ok _ -> "ok"
   | Err c -> if int_of_nat c = 90 then "na" else "err"
@@ -268,7 +273,8 @@ let query (p : pool) toks : string =
        | Some e ->
            let rho = sort_valuation (take_pairs (int_of_string n) r (fun h b -> (name_of_hex h, b = "1"))) in
            if d = "-" then
-             Printf.sprintf "checked=%s s.checked=%s" (show_checked (obj_eval_checked e.e_obj rho)) (spec_checked e.e_spec rho)
+             Printf.sprintf "checked=%s s.checked=%s py.exc=%s" (show_checked (obj_eval_checked e.e_obj rho)) (spec_checked e.e_spec rho)
+               (match py_eval_checked e.e_obj rho with Inr x -> exc_name x | Inl _ -> "none")
            else
              let dv = (d = "1") in
              let sv = e.e_spec.fn (fun x -> match List.assoc_opt x rho with Some b -> b | None -> dv) in
@@ -289,7 +295,8 @@ let query (p : pool) toks : string =
       (match eo with
        | Some e -> let (i, tv) = digest e in
                    Printf.sprintf "%s acc=1 inputs=%s tv=%s s.acc=1 s.rel=eq s.inputs=%s s.tv=%s" f i tv i tv
-       | None -> Printf.sprintf "%s acc=0 s.acc=0" f)
+       | None -> Printf.sprintf "%s acc=0 s.acc=0 py.exc=%s" f
+                   (match py_new (AStr (name_of_hex h)) with Inr x -> exc_name x | Inl _ -> "none"))
   | ["csvout"; i; fi; fo] ->
       (match get i with
        | Some { e_obj = OT t; _ } ->
@@ -383,7 +390,8 @@ let query (p : pool) toks : string =
       (match get i with
        | Some { e_obj = OE _; _ } | None -> "skip"
        | Some _ -> "fresh=11111 s.fresh=11111")
-  | ("repr" | "row" | "pyctor" | "pyvars" | "pycopy" | "pyfrom") :: _ -> "pyonly"
+  | "pyctor" :: _ -> "pyonly py.exc=" ^ (match py_new AOther with Inr x -> exc_name x | Inl _ -> "none")
+  | ("repr" | "row" | "pyvars" | "pycopy" | "pyfrom") :: _ -> "pyonly"
   | t :: _ -> raise (Bad ("query " ^ t))
   | [] -> raise (Bad "empty query")
 
@@ -406,13 +414,14 @@ let () =
                  (match rest with "csvin" :: "missing" :: _ -> raise Exit | _ -> ());
                  let i = parse_instr rest in
                  let res = exec !pool i in
+                 let pyx = py_exc_of !pool i in
                  exact := !exact @ [ exact_of i ];
                  pool := !pool @ [ (match res with Ok e -> Some e | _ -> None) ];
                  (match i, res with
                   | ICsvIn _, Err c -> "err variant=" ^ csv_err_name (int_of_nat c)
-                  | _ -> status_of res)
+                  | _ -> status_of res) ^ pyx
                with Bad m -> pool := !pool @ [None]; exact := !exact @ [false]; "bad:" ^ m
-                  | Exit -> pool := !pool @ [None]; exact := !exact @ [false]; "err variant=IOError") in
+                  | Exit -> pool := !pool @ [None]; exact := !exact @ [false]; "err variant=IOError py.exc=" ^ exc_name exc_of_missing_file) in
             Printf.printf "%s %d %s\n" !case !lineno out
         | "q" :: rest ->
             incr lineno;
